@@ -302,6 +302,81 @@ func runC03(c *h.Ctx) {
 			c.Sample("spelling", map[string]string{"text": txt, "abstract": ap.Sexp()})
 		}
 	}
+	// (4) long flat paths: hundreds of steps, subscripts, groups or conditions one
+	// after the other (nothing nested more than once or twice) - what the
+	// hundredth bracket means does not depend on the ninety-nine before it
+	rlong := c.Rand("c03-long")
+	kl := 0
+	for _, nsteps := range []int{100, 129, 140, 200, 300} {
+		for form := 0; form < 7; form++ {
+			kl++
+			if !c.Mine(kl) {
+				continue
+			}
+			root := &gen.N{K: gen.KRoot}
+			ap := &gen.Path{Lax: form%2 == 0, Root: root}
+			idx := func(i int64) *gen.N {
+				return &gen.N{K: gen.KIndex, Subs: [][2]*gen.N{{{K: gen.KInt, I: i}, nil}}}
+			}
+			switch form {
+			case 0: // $[0][0]...
+				for i := 0; i < nsteps; i++ {
+					root.Append(idx(int64(i % 3)))
+				}
+			case 1: // $.a[1].a[1]...
+				for i := 0; i < nsteps; i++ {
+					root.Append(&gen.N{K: gen.KKey, S: "a"})
+					root.Append(idx(1))
+				}
+			case 2: // $[*][*]...
+				for i := 0; i < nsteps; i++ {
+					root.Append(&gen.N{K: gen.KAnyArray})
+				}
+			case 3: // one subscript list of nsteps subscripts, every other one a range
+				var subs [][2]*gen.N
+				for i := 0; i < nsteps; i++ {
+					if i%2 == 0 {
+						subs = append(subs, [2]*gen.N{{K: gen.KInt, I: int64(i)}, nil})
+					} else {
+						subs = append(subs, [2]*gen.N{{K: gen.KInt, I: int64(i)}, {K: gen.KLast}})
+					}
+				}
+				root.Append(&gen.N{K: gen.KIndex, Subs: subs})
+			case 4: // a filter naming nsteps subscripts side by side
+				var cond *gen.N
+				for i := 0; i < nsteps; i++ {
+					atom := &gen.N{K: gen.KBin, S: "==", A: &gen.N{K: gen.KCurrent, Next: idx(int64(i))}, B: &gen.N{K: gen.KInt, I: 1}}
+					if cond == nil {
+						cond = atom
+					} else {
+						cond = &gen.N{K: gen.KBin, S: []string{"&&", "||"}[i%2], A: cond, B: atom}
+					}
+				}
+				root.Append(&gen.N{K: gen.KFilter, A: cond})
+			case 5: // nsteps filters one after the other, each with a subscript
+				for i := 0; i < nsteps; i++ {
+					root.Append(&gen.N{K: gen.KFilter, A: &gen.N{K: gen.KBin, S: ">", A: &gen.N{K: gen.KCurrent, Next: idx(0)}, B: &gen.N{K: gen.KInt, I: int64(i)}}})
+				}
+			case 6: // a sum of nsteps subscripted terms
+				var sum *gen.N
+				for i := 0; i < nsteps; i++ {
+					term := &gen.N{K: gen.KRoot, Next: idx(int64(i))}
+					if sum == nil {
+						sum = term
+					} else {
+						sum = &gen.N{K: gen.KBin, S: []string{"+", "-", "*"}[i%3], A: sum, B: term}
+					}
+				}
+				ap.Root = sum
+			}
+			for rep := 0; rep < 4; rep++ {
+				st := &gen.Style{R: rlong, Lexical: rep > 0, MinimalParens: rep%2 == 0}
+				txt := gen.Spell(ap, st)
+				c.Distinct(txt)
+				checkSpelling(c, ap, txt, "tree")
+			}
+		}
+	}
 }
 
 // decorate widens literal content beyond what the executor-oriented generator produces.
